@@ -81,7 +81,6 @@ def lit(v: Any) -> str:
         assert "'" not in v and "\\" not in v
         return "'" + v + "'"
     if isinstance(v, float):
-        assert v == int(v)
         return repr(v)
     assert isinstance(v, int)
     return str(v)
@@ -96,6 +95,9 @@ def supplied(supply: str) -> tuple[dict[str, Any], dict[str, Any], dict[str, Any
         return both, {}, both
     if supply == "outer":
         return {}, both, both
+    if supply == "outerB":  # other values, used between the renders of a history
+        other = {"v": "B%", "w": 8}
+        return {}, other, other
     if supply == "mixed":
         return {"v": VAL_V}, {"w": VAL_W}, both
     if supply == "shadow":  # docs/optional_tags.md: keyword arguments "add (or shadow existing) variables"
@@ -108,6 +110,12 @@ def filter_program(case: dict[str, Any]) -> tuple[str, dict[str, Any], dict[str,
     construct, form = case["construct"], case["form"]
     s, p, count, ctx = case["s"], case["p"], case["count"], case["ctx"]
     kw, outer, refvars = supplied(case["supply"])
+    # docs/babel.md: "Filter keyword arguments are merged with the current render context before
+    # being used to replace variables in message text"
+    kw = dict(kw, **case.get("extra_kw", {}))
+    outer = dict(outer, **case.get("outer", {}))
+    refvars = dict(case.get("outer", {}), **refvars)
+    refvars.update(case.get("extra_kw", {}))
     data: dict[str, Any] = dict(outer)
     if form == "lit":
         left, plural, n, c = lit(s), (lit(p) if p is not None else None), (lit(count) if count is not None else None), lit(CTX)
@@ -154,26 +162,37 @@ def filter_program(case: dict[str, Any]) -> tuple[str, dict[str, Any], dict[str,
 def tag_program(case: dict[str, Any]) -> tuple[str, dict[str, Any], dict[str, Any]]:
     s, p, count, ctx = case["s"], case["p"], case["count"], case["ctx"]
     kw, outer, refvars = supplied(case["supply"])
+    data = dict(case.get("outer", {}), **outer)
+    refvars = dict(case.get("outer", {}), **refvars)
     args: list[str] = []
     if ctx is not None:
         args.append(f"context: {lit(CTX)}")
     if count is not None:
-        args.append(f"count: {lit(count)}")
+        # docs/optional_tags.md: "Keyword arguments are used to add (or shadow existing) variables";
+        # `count` is one of them, so {{ count }} shows the value the template supplied
+        refvars["count"] = count
+        if case.get("count_var"):
+            args.append("count: n")
+            data["n"] = count
+        else:
+            args.append(f"count: {lit(count)}")
     args += [f"{k}: {lit(val)}" for k, val in kw.items()]
     src = "[{% translate" + ((" " + ", ".join(args)) if args else "") + " %}" + s
     if p is not None:
         src += "{% plural %}" + p
     src += "{% endtranslate %}]"
-    return src, dict(outer), refvars
+    return src, data, refvars
 
 
 # ---------------------------------------------------------------------------
 # case enumeration
 # ---------------------------------------------------------------------------
 def _case(kind: str, construct: str, form: str, s: str, p: Optional[str], count: Any, ctx: Optional[str],
-          supply: str, autoescape: bool) -> dict[str, Any]:
+          supply: str, autoescape: bool, **extra: Any) -> dict[str, Any]:
+    """``extra``: ``outer`` (more outer variables), ``extra_kw`` (more filter keyword arguments),
+    ``count_var`` (the tag's count is passed as the variable ``n``)."""
     return {"kind": kind, "construct": construct, "form": form, "s": s, "p": p, "count": count, "ctx": ctx,
-            "supply": supply, "autoescape": autoescape}
+            "supply": supply, "autoescape": autoescape, **extra}
 
 
 def filter_cases(m: str, full: bool) -> Iterator[dict[str, Any]]:
@@ -251,6 +270,112 @@ def tag_cases(b: str, full: bool) -> Iterator[dict[str, Any]]:
                     yield _case("tag", "translate", "lit", s, p, count, None, sup, False)
 
 
+# -- placeholders that name the reserved variable `count` ------------------------------------
+COUNT_ARGS: list[Any] = [None, 0, 1, 2, "2", "1", 1.0, 2.5, "many"]
+OUTER_COUNT = {"count": 5}
+
+
+def count_messages(kind: str) -> list[str]:
+    toks = [""] + (TOKENS if kind == "count-filter" else TAG_TOKENS)
+    ph = "%(count)s" if kind == "count-filter" else "{{ count }}"
+    return [pre + ph + post for pre in toks for post in toks]
+
+
+def count_tag_cases(b: str, full: bool = True) -> Iterator[dict[str, Any]]:
+    """A body that shows {{ count }}: the placeholder is replaced by the variable named count,
+    i.e. the `count:` argument as the template supplied it, else the outer variable, else nothing."""
+    for outer in ({}, OUTER_COUNT):
+        for count in COUNT_ARGS:
+            for count_var in (False, True) if count is not None else (False,):
+                for s, p in ((b, None), (b, "a"), ("a", b)):
+                    yield _case("tag", "translate", "lit", s, p, count, None, "none", False,
+                                outer=outer, count_var=count_var)
+
+
+def count_filter_cases(m: str, full: bool = True) -> Iterator[dict[str, Any]]:
+    """A message that shows %(count)s.  Not generated: `t` with a `count:` argument -- docs/
+    optional_filters.md reserves plural and count and says "The remaining keyword arguments are used
+    to populate translatable message variables", so whether count itself is one is not settled."""
+    for form in ("lit", "var"):
+        for outer in ({}, OUTER_COUNT):
+            for construct, ctx in (("t", None), ("t", CTX), ("gettext", None), ("pgettext", CTX)):
+                yield _case("filter", construct, form, m, None, None, ctx, "none", False, outer=outer)
+                if construct != "t":
+                    yield _case("filter", construct, form, m, None, None, ctx, "none", False,
+                                outer=outer, extra_kw={"count": 3})
+            for s, p in ((m, "a"), ("a", m)):
+                for construct, ctx in (("ngettext", None), ("npgettext", CTX)):
+                    for n in (1, 2):  # the positional count is not a variable named count
+                        for extra_kw in ({}, {"count": 3}):
+                            yield _case("filter", construct, form, s, p, n, ctx, "none", False,
+                                        outer=outer, extra_kw=extra_kw)
+
+
+# -- histories: one parsed translate node formats several messages ---------------------------
+HISTORY_SEQS_VARS = [[(1, "outer"), (2, "outerB"), (1, "missing")], [(2, "outer"), (1, "outerB"), (5, "outer")]]
+HISTORY_SEQS_PLAIN = [[(1, "none"), (2, "none"), (1, "none")], [(2, "none"), (1, "none"), (0, "none")]]
+LOOP_COUNTS = [[1, 2, 1], [2, 1, 0]]
+
+
+def history_cases(b: str) -> Iterator[dict[str, Any]]:
+    for o in TAG_OTHERS:
+        for s, p in ((b, o), (o, b)):
+            has = ref.has_tag_var(s) or ref.has_tag_var(p)
+            for seq in HISTORY_SEQS_VARS if has else HISTORY_SEQS_PLAIN:
+                yield {"kind": "tag-history", "mode": "renders", "s": s, "p": p,
+                       "steps": [{"count": c, "supply": sup} for c, sup in seq]}
+            for ns in LOOP_COUNTS:
+                yield {"kind": "tag-history", "mode": "loop", "s": s, "p": p, "counts": ns,
+                       "supply": "outer" if has else "none"}
+
+
+def run_history(h: dict[str, Any]) -> list[tuple[str, Optional[dict[str, Any]], Any]]:
+    """Render ONE parsed template several times (mode renders) or let one translate node format
+    several messages inside a for loop (mode loop); every output is compared with the reference
+    for its own data.  Returns (label, violation, non-trivial identity) per render."""
+    from mc.util import outcome
+
+    _, env = get_env({"supply": "none", "autoescape": False})
+    s, p = h["s"], h["p"]
+
+    def step_case(count: Any, supply: str) -> dict[str, Any]:
+        return _case("tag", "translate", "lit", s, p, count, None, supply, False, count_var=True)
+
+    out: list[tuple[str, Optional[dict[str, Any]], Any]] = []
+    if h["mode"] == "renders":
+        steps = [step_case(st["count"], st["supply"]) for st in h["steps"]]
+        src = tag_program(steps[0])[0]
+        parsed = outcome(lambda: env.from_string(src))
+        for i, sc in enumerate(steps):
+            src_i, data, _ = tag_program(sc)
+            assert src_i == src
+            got = outcome(lambda: parsed.value.render(**data)) if parsed.ok else parsed
+            label, viol, nontrivial, _ = check_case(sc, got=got)
+            if viol is not None:
+                viol["signature"]["history"] = "renders"
+                viol["what"] = f"render {i + 1} of {len(steps)} of one parsed template ({h['steps']!r}): " + viol["what"]
+                viol["case"] = h
+            out.append(("history-renders:" + label, viol, ["history", i, h] if nontrivial is not None else None))
+        return out
+    counts, supply = h["counts"], h["supply"]
+    cases = [step_case(c, supply) for c in counts]
+    inner, data, _ = tag_program(cases[0])
+    src = "{% for n in ns %}" + inner + "{% endfor %}"
+    data = dict(data, ns=list(counts))
+    data.pop("n", None)
+    wants = {""}
+    for sc in cases:
+        wants = {a + b for a in wants for b in accepted_outputs(sc)}
+    got = outcome(lambda: env.from_string(src).render(**data))
+    if got.ok and got.value in wants:
+        return [("history-loop:ok", None, ["history-loop", h])]
+    sig = {"clause": "message-intact", "kind": "tag", "construct": "translate", "history": "loop", "autoescape": False,
+           "feature": "none", "got": "wrong-output" if got.ok else "raise:" + str(got.error_class)}
+    observed = repr(got.value) if got.ok else f"{got.error_class}: {got[2]!r}" + (f" at {got.where}" if got.where else "")
+    what = f"{src!r} data={data!r} -> {observed}; reference (per iteration, its own count): {sorted(wants)!r}"
+    return [("history-loop:VIOL:" + sig["got"], {"signature": sig, "what": what, "case": h}, ["history-loop", h])]
+
+
 # ---------------------------------------------------------------------------
 # execution on the real library
 # ---------------------------------------------------------------------------
@@ -311,10 +436,8 @@ def excluded(case: dict[str, Any]) -> Optional[str]:
     return None
 
 
-def check_case(case: dict[str, Any]) -> tuple[str, Optional[dict[str, Any]], Any, Any]:
-    """Run one case.  Returns (outcome label, violation or None, non-trivial identity or None,
-    the observed outcome)."""
-    kind, construct = case["kind"], case["construct"]
+def _expect(case: dict[str, Any]) -> tuple[Any, ...]:
+    kind = case["kind"]
     s, p, count = case["s"], case["p"], case["count"]
     src, data, refvars = program(case)
     chosen, plural_chosen = ref.select(s, p, count, count is not None)
@@ -331,18 +454,37 @@ def check_case(case: dict[str, Any]) -> tuple[str, Optional[dict[str, Any]], Any
         wants_other = {"[" + e + "]" for e in ref.format_tag(other, refvars)} if other is not None else set()
         flags = (("%" if "%" in chosen else "") + ("v" if ref.has_tag_var(chosen) else "")
                  + ("w" if ref.tag_collapses(chosen) else ""))
+    return src, data, refvars, chosen, plural_chosen, other, wants, wants_other, flags
+
+
+def accepted_outputs(case: dict[str, Any]) -> set[str]:
+    """Every output the reference accepts for one case."""
+    _, _, _, _, _, other, wants, wants_other, _ = _expect(case)
+    if other is not None and ref.form_unspecified(case["count"]):
+        return wants | wants_other
+    return wants
+
+
+def check_case(case: dict[str, Any], got: Any = None) -> tuple[str, Optional[dict[str, Any]], Any, Any]:
+    """Run one case (or judge the observation ``got`` made elsewhere for it).  Returns (outcome
+    label, violation or None, non-trivial identity or None, the observed outcome)."""
+    kind, construct = case["kind"], case["construct"]
+    s, p, count = case["s"], case["p"], case["count"]
+    src, data, refvars, chosen, plural_chosen, other, wants, wants_other, flags = _expect(case)
     choice_visible = bool(wants_other) and not (wants & wants_other)
-    either_form = other is not None and ref.count_conversion_matters(count)
+    either_form = other is not None and ref.form_unspecified(count)
     if either_form:  # which form a numeric-string count selects is not settled: accept both
         if choice_visible:
             COUNTERS["unspecified_excluded"] += 1
-            COUNTERS["unspecified_excluded:form-selected-by-numeric-string-count"] += 1
+            COUNTERS["unspecified_excluded:form-selected-by-non-integer-count"] += 1
         wants, wants_other, choice_visible = wants | wants_other, set(), False
     nontrivial = None
     if flags or choice_visible:
-        nontrivial = [kind, construct, case["form"], s, p, count, case["ctx"], case["supply"], case["autoescape"]]
+        nontrivial = [kind, construct, case["form"], s, p, count, case["ctx"], case["supply"], case["autoescape"],
+                      case.get("outer"), case.get("extra_kw"), case.get("count_var")]
 
-    got = execute(case, src, data)
+    if got is None:
+        got = execute(case, src, data)
     form_label = "none" if p is None or count is None else ("plural" if plural_chosen else "singular")
     if either_form:
         form_label = "either"
@@ -432,7 +574,14 @@ class C26(Check):
         "count in {absent,0,1,2,5,-1,'2'} plus the numeric-string / integral-float counts {'1','0',1.0,0.0} (first "
         "supply only). Every t case with plural+count is also compared with the ngettext (npgettext when a context "
         "is given) case on the same arguments: same output or same error class (docs/babel.md: t 'can behave like "
-        "any of the *gettext filters, depending on the arguments it is given'). Oracle = mc/ref/c26_model.py (form chosen by calling "
+        "any of the *gettext filters, depending on the arguments it is given'). Extra sections: (count) messages "
+        "pre+%(count)s+post / bodies pre+{{ count }}+post for every pre, post in alphabet+{''}, with the count argument "
+        "in {absent,0,1,2,'2','1',1.0,2.5,'many'} (literal and variable), an outer variable count absent/5 and (filters "
+        "other than t) a keyword count: 3 -- the placeholder shows the variable the template supplied; (history) for "
+        "every tag body of <= 3 tokens paired with each partner in both roles, ONE parsed template rendered 3 times "
+        "with different counts and outer variables, and the tag inside {% for n in ns %} with counts [1,2,1] / "
+        "[2,1,0], each output compared with the reference for its own data. Filter templates of the variable form "
+        "are parsed once per shard and reused for every message, so filters are exercised with histories too. Oracle = mc/ref/c26_model.py (form chosen by calling "
         "gettext.NullTranslations.ngettext; one-pass %(name)s / {{ name }} substitution with the values verbatim; "
         "every other character unchanged (in filter messages %% may also come out as %); tag text stripped and whitespace runs collapsed); any exception is a violation. Non-trivial = "
         "the selected text contains a % or a placeholder or (tag) whitespace to collapse, or a plural text and a "
@@ -484,7 +633,9 @@ class C26(Check):
 
     def shards(self, tier: str) -> list[Any]:
         n = 48 if tier == "quick" else 384
-        return [(kind, r, n) for r in range(n) for kind in ("filter", "tag")]
+        k = 16 if tier == "quick" else 64
+        return ([(kind, r, n) for r in range(n) for kind in ("filter", "tag")]
+                + [(kind, r, k) for r in range(k) for kind in ("count-filter", "count-tag", "history")])
 
     def run_shard(self, shard: Any, tier: str) -> Result:
         from mc.util import reset_memo
@@ -492,14 +643,38 @@ class C26(Check):
         reset_memo()
         kind, r, n = shard
         res = Result()
-        msgs = messages(kind, max_tokens(tier))
-        gen = filter_cases if kind == "filter" else tag_cases
         sampled: set[Any] = set()
         pending: dict[Any, Any] = {}
         COUNTERS.clear()
+        if kind == "history":
+            bodies = messages("tag", max_tokens(tier))
+            for i in range(r, len(bodies), n):
+                if bodies[i][1] > N_FULL:
+                    continue  # histories: bodies of <= 3 tokens in both tiers
+                res.count("history_bodies")
+                for h in history_cases(bodies[i][0]):
+                    for label, viol, nontrivial in run_history(h):
+                        sample = None
+                        if h["mode"] not in sampled and i > 200 and viol is None:
+                            sampled.add(h["mode"])
+                            sample = dict(h, outcome=label)
+                        res.case(nontrivial=nontrivial, outcome=label, sample=sample)
+                        if viol is not None:
+                            res.violation(viol["signature"], viol["what"], viol["case"])
+            for k, v in COUNTERS.items():
+                res.count(k, v)
+            return res
+        if kind in ("count-filter", "count-tag"):
+            msgs = [(m, 0) for m in count_messages(kind)]
+            gen = count_filter_cases if kind == "count-filter" else count_tag_cases
+            if kind == "count-filter":
+                res.count("unspecified_excluded:t-count-argument-shown-as-%(count)s(not generated)", len(msgs[r::n]))
+        else:
+            msgs = messages(kind, max_tokens(tier))
+            gen = filter_cases if kind == "filter" else tag_cases
         for i in range(len(msgs) - 1 - r, -1, -n):  # longest messages first (only affects which samples are kept)
             m, ntok = msgs[i]
-            res.count(f"{kind}_messages")
+            res.count(f"{kind.replace('-', '_')}_messages")
             if kind == "tag" and ref.tag_ws_ambiguous(m):
                 res.count("tag_bodies_with_newline_free_ws_run(both_readings_accepted)")
             for case in gen(m, ntok <= N_FULL):
@@ -509,7 +684,7 @@ class C26(Check):
                     res.count("unspecified_excluded:" + why)
                     continue
                 label, viol, nontrivial, got = check_case(case)
-                if case["kind"] == "filter" and case["p"] is not None and case["count"] is not None:
+                if kind == "filter" and case["p"] is not None and case["count"] is not None:
                     if case["construct"] == "t":
                         pending[case["ctx"]] = (case, got)
                     else:  # ngettext / npgettext directly follows its t twin in the enumeration
@@ -538,6 +713,8 @@ class C26(Check):
         return res
 
     def replay(self, case: Any) -> list[dict[str, Any]]:
+        if case["kind"] == "tag-history":
+            return [v for _, v, _ in run_history(case) if v is not None]
         if excluded(case) is not None:
             return []
         if case.get("differential"):
